@@ -82,7 +82,7 @@ partial def register (e : Enc) (t : T) (nodes : Std.HashMap String T) (bytes : S
 def parseFmt : String → Option Fmt
   | "bin" => some .bin | "json" => some .json | _ => none
 def parseKK : String → Option KeyKind
-  | "vk" => some .vk | "u64" => some .u64 | "i64" => some .i64 | "str" => some .str
+  | "vk" => some .vk | "u64" => some .u64 | "i64" => some .i64 | "i64w" => some .i64w | "str" => some .str
   | "bytes" => some .bytes | "int" => some .int | "uint" => some .uint | "sk" => some .sk | "skc" => some .skc | "strx" => some .strx | _ => none
 def parseVK : String → Option ValKind
   | "u64" => some .u64 | "bytes" => some .bytes | "str" => some .str
